@@ -661,6 +661,18 @@ theorem segment_data_as_notes_total (f : ElfBytes) (phdr : ProgramHeader) :
   · simp
   · exact Out.bind_ne_panic _ _ (segment_data_total f phdr) (fun _ _ => by simp)
 
+theorem dynamic_from_segments_total (f : ElfBytes) (ho : Opened f) : f.dynamicFromSegments ≠ .panic := by
+  unfold ElfBytes.dynamicFromSegments
+  split
+  · rename_i phdrs hp
+    refine Out.bind_ne_panic _ _ (Iter.find_ne_panic _ (by
+      show phdrs.ep.Total; rw [ho.2 phdrs hp]; exact total_ProgramHeader) _) (fun o _ => ?_)
+    split
+    · refine Out.bind_ne_panic _ _ (dataRange_ne_panic _ _) (fun _ _ => ?_)
+      exact Out.bind_ne_panic _ _ (Slice.getBytes_ne_panic _ _ _) (fun _ _ => by simp)
+    · simp
+  · simp
+
 theorem dynamic_total (f : ElfBytes) (ho : Opened f) : f.dynamic ≠ .panic := by
   unfold ElfBytes.dynamic
   split
@@ -670,15 +682,7 @@ theorem dynamic_total (f : ElfBytes) (ho : Opened f) : f.dynamic ≠ .panic := b
     split
     · exact Out.bind_ne_panic _ _ (section_data_as_dynamic_total f _) (fun _ _ => by simp)
     · simp
-  · split
-    · rename_i phdrs hp
-      refine Out.bind_ne_panic _ _ (Iter.find_ne_panic _ (by
-        show phdrs.ep.Total; rw [ho.2 phdrs hp]; exact total_ProgramHeader) _) (fun o _ => ?_)
-      split
-      · refine Out.bind_ne_panic _ _ (dataRange_ne_panic _ _) (fun _ _ => ?_)
-        exact Out.bind_ne_panic _ _ (Slice.getBytes_ne_panic _ _ _) (fun _ _ => by simp)
-      · simp
-    · simp
+  · exact dynamic_from_segments_total f ho
 
 theorem section_data_as_symbol_table_total (f : ElfBytes) (a b : SectionHeader) :
     f.sectionDataAsSymbolTable a b ≠ .panic := by
@@ -781,6 +785,7 @@ theorem common_scan_total (f : ElfBytes) (shdrs : Table SectionHeader) (ht : shd
       | some shdr =>
         simp only
         refine Out.bind_ne_panic _ _ ?_ (fun acc' _ => ih r2 (by rw [h2.1]; exact hit) acc')
+        unfold ElfBytes.commonStep
         split
         · refine Out.bind_ne_panic _ _ (Table.get_ne_panic _ ht _) (fun _ _ => ?_)
           exact Out.bind_ne_panic _ _ (section_data_as_symbol_table_total f _ _) (fun _ _ => by simp)
@@ -802,21 +807,15 @@ theorem common_scan_total (f : ElfBytes) (shdrs : Table SectionHeader) (ht : shd
 theorem find_common_data_total (f : ElfBytes) (ho : Opened f) : f.findCommonData ≠ .panic := by
   unfold ElfBytes.findCommonData
   refine Out.bind_ne_panic _ _ ?_ (fun result _ => ?_)
-  · split
+  · unfold ElfBytes.sectionScan
+    split
     · rename_i shdrs hs
       have ht : shdrs.ep.Total := by rw [ho.1 shdrs hs]; exact total_SectionHeader
       exact common_scan_total f shdrs ht _ _ ht _
     · simp
   · split
-    · split
-      · rename_i phdrs hp
-        refine Out.bind_ne_panic _ _ (Iter.find_ne_panic _ (by
-          show phdrs.ep.Total; rw [ho.2 phdrs hp]; exact total_ProgramHeader) _) (fun o _ => ?_)
-        split
-        · refine Out.bind_ne_panic _ _ (dataRange_ne_panic _ _) (fun _ _ => ?_)
-          exact Out.bind_ne_panic _ _ (Slice.getBytes_ne_panic _ _ _) (fun _ _ => by simp)
-        · simp
-      · simp
+    · refine Out.bind_ne_panic _ _ (dynamic_from_segments_total f ho) (fun o _ => ?_)
+      split <;> simp
     · simp
 
 /-! ### symbol-version queries -/
